@@ -91,6 +91,117 @@ func mapOrderHazards(p *core.Prog, f *core.Fn) []string {
 	return out
 }
 
+// sortedMapKeyHazards (P12c): a slice filled by appending the loop variables of a range over a map carries the map's
+// iteration order. Sorting removes that order only if the comparator separates any two distinct elements. A comparator
+// whose deciding comparison looks at the elements through a projection that is not injective — len / cap, arithmetic,
+// indexing into something else, slicing — leaves ties, and within a tie the map order survives: "first match wins" over
+// such a slice depends on the iteration order again. Typed sorts (sort.Strings, slices.Sort, …) order by the whole value.
+func sortedMapKeyHazards(p *core.Prog, f *core.Fn) []string {
+	info := f.Info()
+	var out []string
+	// slices collected from a map
+	collected := map[types.Object]bool{}
+	core.Walk(f.Decl.Body, true, func(x ast.Node) bool {
+		rs, ok := x.(*ast.RangeStmt)
+		if !ok {
+			return true
+		}
+		t := info.TypeOf(rs.X)
+		if t == nil {
+			return true
+		}
+		if _, isMap := t.Underlying().(*types.Map); !isMap {
+			return true
+		}
+		vars := map[types.Object]bool{}
+		for _, e := range []ast.Expr{rs.Key, rs.Value} {
+			if e != nil {
+				if o := core.ObjOf(info, e); o != nil {
+					vars[o] = true
+				}
+			}
+		}
+		core.Walk(rs.Body, false, func(y ast.Node) bool {
+			a, ok := y.(*ast.AssignStmt)
+			if !ok || len(a.Lhs) != 1 || len(a.Rhs) != 1 {
+				return true
+			}
+			c, ok := ast.Unparen(a.Rhs[0]).(*ast.CallExpr)
+			if !ok || core.CallName(info, c) != "builtin.append" || len(c.Args) < 2 {
+				return true
+			}
+			if o := core.ObjOf(info, a.Lhs[0]); o != nil && core.ObjOf(info, c.Args[0]) == o {
+				for _, arg := range c.Args[1:] {
+					if mentionsAny(info, arg, vars) {
+						collected[o] = true
+					}
+				}
+			}
+			return true
+		})
+		return true
+	})
+	if len(collected) == 0 {
+		return nil
+	}
+	core.Walk(f.Decl.Body, true, func(x ast.Node) bool {
+		c, ok := x.(*ast.CallExpr)
+		if !ok || len(c.Args) != 2 {
+			return true
+		}
+		switch core.CallName(info, c) {
+		case "sort.Slice", "sort.SliceStable", "slices.SortFunc", "slices.SortStableFunc":
+		default:
+			return true
+		}
+		so := core.ObjOf(info, c.Args[0])
+		if so == nil || !collected[so] {
+			return true
+		}
+		body, binfo := funcBodyOf(p, info, f.Decl.Body, c.Args[1])
+		if body == nil {
+			return true
+		}
+		// the deciding comparison: the last return of the comparator
+		var last *ast.ReturnStmt
+		core.Walk(body, false, func(y ast.Node) bool {
+			if rs, ok := y.(*ast.ReturnStmt); ok && len(rs.Results) == 1 {
+				last = rs
+			}
+			return true
+		})
+		if last == nil {
+			return true
+		}
+		why := ""
+		core.Walk(resolveLocal(binfo, body, last.Results[0]), false, func(y ast.Node) bool {
+			switch e := y.(type) {
+			case *ast.CallExpr:
+				if cn := core.CallName(binfo, e); cn == "builtin.len" || cn == "builtin.cap" {
+					why = cn[len("builtin."):] + "(…)"
+				}
+			case *ast.SliceExpr:
+				why = "a sub-slice"
+			case *ast.BinaryExpr:
+				switch e.Op {
+				case token.REM, token.QUO, token.AND, token.SHR, token.SHL, token.AND_NOT:
+					why = "arithmetic (" + e.Op.String() + ")"
+				}
+			case *ast.IndexExpr:
+				if core.ObjOf(binfo, e.X) != so {
+					why = "a lookup (" + core.Str(e) + ")"
+				}
+			}
+			return true
+		})
+		if why != "" {
+			out = append(out, fmt.Sprintf("%s: %s holds the entries of a map in iteration order and is sorted by %s only: distinct entries that tie keep the map's iteration order, so what is found first in it differs from run to run", p.Rel(c.Pos()), so.Name(), why))
+		}
+		return true
+	})
+	return out
+}
+
 func c27(r *core.Run) {
 	r.Expl = "C27 (capture reconfiguration converges without data loss): decides (1) in Manager.update the final write-out of the interfaces to be disabled / restarted precedes, on every path, the code that closes their captures, and the applied configuration is recorded under the manager lock before captures change; interfaces whose parameters changed are both disabled and re-enabled; (2) the configuration an interface gets is chosen deterministically: IfaceMatcher.FindMatch returns no match found while ranging over a map; (3) CaptureConfig.Equals and RingBufferConfig.Equals compare every field, so every parameter change restarts the capture. NOT decided: convergence over sequences of updates with failures, the data actually written, link up/down handling."
 	r.Floor = 9
@@ -101,6 +212,8 @@ func c27(r *core.Run) {
 	if f := r.MustFunc("map-order-hazard", pkgConfig, "IfaceMatcher.FindMatch"); f != nil {
 		hz := mapOrderHazards(p, f)
 		r.Check("map-order-hazard", "IfaceMatcher.FindMatch", p.Rel(f.Decl.Pos()), len(hz) == 0, strings.Join(hz, "; "))
+		hs := sortedMapKeyHazards(p, f)
+		r.Check("map-order-hazard", "IfaceMatcher.FindMatch:sorted-by-whole-key", p.Rel(f.Decl.Pos()), len(hs) == 0, strings.Join(hs, "; "))
 		// explicit names take precedence over expressions
 		info := f.Info()
 		fI := p.FieldObj(pkgConfig, "IfaceMatcher", "ifaces")
@@ -122,7 +235,9 @@ func c27(r *core.Run) {
 	if r.Thorough() {
 		for _, rel := range []string{pkgConfig, pkgCapture, "pkg/goDB", "pkg/goDB/engine", "pkg/goDB/info", "cmd/global-query/pkg/distributed", "pkg/results", "pkg/query"} {
 			for _, fn := range p.Funcs(rel) {
-				if hz := mapOrderHazards(p, fn); len(hz) > 0 {
+				hz := mapOrderHazards(p, fn)
+				hz = append(hz, sortedMapKeyHazards(p, fn)...)
+				if len(hz) > 0 {
 					known := map[string]string{
 						"pkg/goDB.firstDay": "test helper style function returning an arbitrary element by design",
 					}
